@@ -351,6 +351,93 @@ def render (d : Dict) : List Tok := flatList (encode d)
 /-- the parser of the token stream of a blockMeshDict -/
 def parse (ts : List Tok) : Option Dict := (parseTrees ts).bind decode
 
+/-! ## 2b. the text of the file: tokenizer and un-tokenizer
+
+`lexText` is the tokenizer of a blockMeshDict text: the five punctuation characters, `// …` comments (to the end of the line,
+trailing blanks removed), words (maximal runs of other non-blank characters; a `/` starts a comment only at the start of a
+token), `/* … */` skipped.  One character per step. -/
+
+/-- python `str.isspace` on ASCII -/
+def isSpace (c : Char) : Bool :=
+  c == ' ' || (9 ≤ c.toNat && c.toNat ≤ 13) || (28 ≤ c.toNat && c.toNat ≤ 31)
+
+def isSpecial (c : Char) : Bool := c == '(' || c == ')' || c == '{' || c == '}' || c == ';'
+
+def punct (c : Char) : Tok :=
+  if c == '(' then .lp else if c == ')' then .rp else if c == '{' then .lb else if c == '}' then .rb else .semi
+
+/-- `rstrip` -/
+def rstrip (l : List Char) : List Char := (l.reverse.dropWhile isSpace).reverse
+
+inductive LexSt where
+  | top                       -- between tokens
+  | slash                     -- a `/` at the start of a token
+  | word (acc : List Char)    -- inside a word (characters so far, reversed)
+  | line (acc : List Char)    -- inside a `//` comment (characters so far, reversed)
+  | block                     -- inside `/* … */`
+  | blockStar                 -- inside `/* … */`, after a `*`
+
+def mkWord (acc : List Char) : Tok := .word (String.ofList acc.reverse)
+def mkComment (acc : List Char) : Tok := .comment (String.ofList (rstrip acc.reverse))
+
+def lex : LexSt → List Char → List Tok
+  | .top, [] => []
+  | .top, c :: r =>
+      if isSpace c then lex .top r
+      else if isSpecial c then punct c :: lex .top r
+      else if c == '/' then lex .slash r
+      else lex (.word [c]) r
+  | .slash, [] => [mkWord ['/']]
+  | .slash, c :: r =>
+      if c == '/' then lex (.line ['/', '/']) r
+      else if c == '*' then lex .block r
+      else if isSpace c then mkWord ['/'] :: lex .top r
+      else if isSpecial c then mkWord ['/'] :: punct c :: lex .top r
+      else lex (.word [c, '/']) r
+  | .word acc, [] => [mkWord acc]
+  | .word acc, c :: r =>
+      if isSpace c then mkWord acc :: lex .top r
+      else if isSpecial c then mkWord acc :: punct c :: lex .top r
+      else lex (.word (c :: acc)) r
+  | .line acc, [] => [mkComment acc]
+  | .line acc, c :: r => if c == '\n' then mkComment acc :: lex .top r else lex (.line (c :: acc)) r
+  | .block, [] => []
+  | .block, c :: r => if c == '*' then lex .blockStar r else lex .block r
+  | .blockStar, [] => []
+  | .blockStar, c :: r => if c == '/' then lex .top r else if c == '*' then lex .blockStar r else lex .block r
+
+/-- the tokenizer of the text of a blockMeshDict -/
+def lexText (cs : List Char) : List Tok := lex .top cs
+
+/-- a character of a word: neither blank nor punctuation -/
+def plainChar (c : Char) : Bool := !isSpace c && !isSpecial c
+
+/-- a token as the writer can print it so that it reads back: a word is a non-empty run of plain characters that does not
+    begin like a comment; a comment begins with `//`, stays on its line and has no trailing blank -/
+def Tok.wf : Tok → Bool
+  | .word s =>
+      let cs := s.toList
+      !cs.isEmpty && cs.all plainChar &&
+        !(cs.head? == some '/' && (cs.tail.head? == some '/' || cs.tail.head? == some '*'))
+  | .comment s =>
+      let cs := s.toList
+      cs.take 2 == ['/', '/'] && cs.all (fun c => c != '\n') && rstrip cs == cs
+  | _ => true
+
+def Tok.chars : Tok → List Char
+  | .lp => ['('] | .rp => [')'] | .lb => ['{'] | .rb => ['}'] | .semi => [';']
+  | .word s => s.toList
+  | .comment s => s.toList
+
+/-- a text with these tokens: every token followed by a blank, a comment by a line break -/
+def Tok.sep : Tok → Char
+  | .comment _ => '\n'
+  | _ => ' '
+
+def unlex : List Tok → List Char
+  | [] => []
+  | t :: ts => t.chars ++ t.sep :: unlex ts
+
 /-! ## 3. the user-level declaration and `Mesh.assemble` -/
 
 /-- One corner of an operation: exact position (for merging), `%.8f` strings are computed by
@@ -950,10 +1037,18 @@ def rdModify : Rd Modify := do
       let s ← rdList rdTrees
       pure ⟨n, k, some s⟩
 
-def rdSetting : Rd (String × List Tree) := do
+/-- a setting: its key and the value as Python holds it — `N` + a number (`int` / `float`: `format_settings` prints
+    `f"{value}"`, i.e. `str(int)` / the shortest round-trip repr, printed here) or `S` + the tokens of any other value -/
+def rdSetting : Rd (String × List Tree × Bool) := do
   let k ← rdStr
-  let v ← rdTrees
-  pure (k, v)
+  let w ← rdWord
+  if w = "N" then do
+    let n ← rdPyNum
+    pure (k, [.atom n.str], n.ok)
+  else if w = "S" then do
+    let v ← rdTrees
+    pure (k, v, true)
+  else failure
 
 def rdDefault : Rd (Option (String × String)) := do
   match (← get) with
@@ -972,7 +1067,10 @@ def footerComments : Option (List String) :=
 def rdDecl : Rd Decl := do
   let (ff, hc) ← (headerTrees : Option _)
   let ft ← (footerComments : Option _)
-  let settings ← rdList rdSetting
+  let settings3 ← rdList rdSetting
+  -- a setting number that fails the validator is an ill-formed request (never a default value)
+  if !settings3.all (·.2.2) then failure
+  let settings := settings3.map (fun x => (x.1, x.2.1))
   let gb ← rdList rdGEntry
   let ga ← rdList rdGEntry
   let mb ← rdList rdPair
@@ -1030,8 +1128,32 @@ def handleParse (args : List String) : Option String := do
         s!"quads={b2s (quadsOk d)} same={b2s (render d == toks)}")
   | none => some "noparse"
 
+/-- first index at which two token lists differ -/
+def firstDiff : List Tok → List Tok → Nat → Option Nat
+  | [], [], _ => none
+  | a :: as, b :: bs, i => if a == b then firstDiff as bs (i + 1) else some i
+  | _, _, i => some i
+
+/-- `c06.file =<text of the written file> <declaration>` → the file is tokenized HERE and compared with the model's rendering:
+    `same=` the token lists are equal, `wf=` every rendered token is well-formed (so `T_C06_lex_unlex` applies to the rendering),
+    `relex=` tokenizing the un-tokenized rendering gives the rendering back (run-time instance), then the tokens of the file -/
+def handleFile (args : List String) : Option String :=
+  match args with
+  | [] => none
+  | t :: rest => do
+      if !t.startsWith "=" then none
+      let text ← unescape (t.drop 1).toString
+      let (decl, extra) ← rdDecl.run rest
+      if !extra.isEmpty then none
+      let want := render (assembleDecl decl)
+      let got := lexText text.toList
+      let at_ := match firstDiff got want 0 with | some i => toString i | none => "-"
+      some (s!"ok same={b2s (got == want)} wf={b2s (want.all Tok.wf)} relex={b2s (lexText (unlex want) == want)} at={at_} T " ++
+        showToks got)
+
 def handle (op : String) (args : List String) : Option String :=
   match op with
+  | "c06.file" => handleFile args
   | "c06.render" => handleRender args
   | "c06.vtk" => handleVtk args
   | "c06.parse" => handleParse args
